@@ -12,708 +12,751 @@ Definition show_fres (r : fres) : string :=
   end.
 Definition check (rs : list rune) : string := digest (show_fres (format_res rs)).
 Definition full (rs : list rune) : string := show_fres (format_res rs).
-Eval vm_compute in ("<<<M1582>>>" ++ check (runes_of_ascii "
-// packet A { u8 x, }
-  packet string_ { @tag(	4294967296 
-) @calculatedFrom(
-
-    """ ++ [128512]%N ++ runes_of_ascii """
-)
-	@calculatedFrom(
-    ""1"" 
-)leftPad
-
-    @lengthOf(//	t
-    int )
-``
-	    // `tick` ""quote"" 'q'
-//
-,
-    repeat Packet
-{zchar[
-    0 
-        // packet A { u8 x, }
-
-  ]
-options1  `line1
-line2`, 
-},	@calculatedFrom(
-""""
-
-    ) float32 u8x , float
-    ,  i64_	{
-    packetx	{i16 falsey 
-,f32 repeatCount
-
-`{ , }`  ,}  ,
-repeat	char[0 ]
-	i8i8 ,
-
-string 
-o
-
-@lengthOf(
-options1
-
-),  }
-
-    ,
-i64_
-	@calculatedFrom( ""a\""b"") 
-    /// triple
-    //x
-    	`a\`
-,
-@rightPad
-
-    (
-) @lengthOf(packetx)match
-
-matchKey 
-as 
-stringy
-{
-""a	b""  : body
-	,
-
-}, 
-  // " ++ [27880; 37322]%N ++ runes_of_ascii "
-@lengthOf(
-
-u128) @calculatedFrom(
-
-    ""`tick`"") 
-@rightPad(
-    )  // @lengthOf(
-	repeat
-falsey
-
-    string_ 
-`" ++ [28040; 24687; 31867; 22411]%N ++ runes_of_ascii "`
-,
-	string
-    As`it's` , 
-@calculatedFrom(
-
-    """ ++ [28040; 24687]%N ++ runes_of_ascii """
-    )
-repeat
-rootA
-{float64 body  ,	}
-, }
-	options
-	{  zchar
-	= 
-    // " ++ [128512]%N ++ runes_of_ascii " emoji
-    	true
+Eval vm_compute in ("<<<M1867>>>" ++ check (runes_of_ascii "  options{
+    BodyLength
+    =	char[7
+    ]
 
     ;
-    i8i8 =
-3
-	;
 
-}  packet
-leftPad
-	{
+    } 
+  // c
+		// @lengthOf(
+    	packet asx	// " ++ [128512]%N ++ runes_of_ascii " emoji
+  	{ int16
+x_y_z ,
+@calculatedFrom( """"
+	)
+@lengthOf( 
+	    /// triple
 
-    @calculatedFrom(
-	    // c
-	""""
-    ) //x
-    @leftPad
-( ' ' ) @calculatedFrom( ""abc""
-)
-repeat
-MetaDataX { char[]	Pad	, body
-@lengthOf(
-
-    Foo) 
+chars)	//
+repeat 
+repeatCount 
+charz 
 /// triple
-		/// triple
-		,
+	// " ++ [27880; 37322]%N ++ runes_of_ascii "
+    	,@leftPad (
 
-    uint64	i8i8 ,
-char[
-42 ]options1
-@calculatedFrom(  ""x y""	)
-	,
-}
-	,
-}	packet stringy
-/// triple
-	{ @calculatedFrom( """ ++ [28040; 24687]%N ++ runes_of_ascii """)
-
-BodyLength len	, @lengthOf(
-	u
-)i8i8	metadata , @calculatedFrom(""a\\""
-) //x
-	packetx,
-f64 i8i8@lengthOf( 
-Header )
-, 
-metadata 
-`
-`, @lengthOf( int
-
-    ) repeat
-falsey
-,repeat
-char[]
-    trueish , }
-")).
-Eval vm_compute in ("<<<M282>>>" ++ check (runes_of_ascii "// a // b
-packet stringy	{
-string zchar ,
-    repeat T
-, match
-u
-as  charz {
-007
-    //x
-    :
-//	t
-// @lengthOf(
-float// trailing space 
-,""\" ++ [233]%N ++ runes_of_ascii """ : Logon ""a	b"":
-//	t
-//	t
-pack, } , match uint8x as
-    // " ++ [27880; 37322]%N ++ runes_of_ascii "
-    roots
-{
-1
-    // `tick` ""quote"" 'q'
-    : len
-,	}
-//x
-// " ++ [27880; 37322]%N ++ runes_of_ascii "
-, }packet zchar {	roots options1
-    //x
-    `// not a comment` , int64 As
-,
-    i16 float
-    @lengthOf( falsey
-    // " ++ [27880; 37322]%N ++ runes_of_ascii "
-    ) `a\`
-    , int64 msg_type `tab	here`
-, @tag(0
-    // `tick` ""quote"" 'q'
-    ) repeat uint8x ,
-    @lengthOf(x
-    ) repeat metadata
-    , zchar[ 0 ]	int , uint64
-    zchar ,zchar[7 // " ++ [27880; 37322]%N ++ runes_of_ascii "
-]
-msg_type
-,
-@calculatedFrom(
-/// triple
-// " ++ [27880; 37322]%N ++ runes_of_ascii "
-""" ++ [28040; 24687]%N ++ runes_of_ascii """ ) crc
-, }
-root packet zchar { repeat
-leftPad,
-} packet
-A{
-@lengthOf(
-    string_ )	x@lengthOf( options1) `two words`,  string
-len ,	}packet	falsey{ i64_ @calculatedFrom(	""{,}"" ) , repeat
-string chars
-, zchar[ 7]calculatedFrom
-, Header
-    { char u`two words`, repeat char[] // c
-tag
-    `say ""hi""`	, Z9_
-    @lengthOf(
-T ) `line1
-line2` , } , msg_type @calculatedFrom( ""// no comment""
-    ) , @rightPad (// packet A { u8 x, }
-'\x00' )
-@lengthOf( asx )
-falsey
-,
-    } // packet A { u8 x, }")).
-Eval vm_compute in ("<<<M1332>>>" ++ check (runes_of_ascii "options {
-    FixedStringPadFromLeft = true;
-    FixedStringPadChar = '0';
-}
-packet Leg {
-    InPrice0 {
-        repeat string clOrdID,
-        int16 msgKind,
-        zchar[5] Px,
-    },
-    i16 f1,
-    repeat f64 Side2,
-    string Acct,
-}
-packet Cancel {
-    zchar[4] clOrdID,
-    string seqNo,
-    Leg,
-    @leftPad('0') char[11] OrderId,
-}
-packet Quote {
-    repeat char[4] sym,
-    f64 OrderId,
-    repeat Leg,
-    repeat i64 f1,
-    int16 Note,
-    zchar[3] count,
-}
-root packet Ack {
-    @leftPad(' ') char[10] sym,
-    InPx60 {
-        Cancel,
-        repeat char[1] f1,
-        string Tail,
-        repeat InNote55 {
-            int8 count,
-            f64 f1,
-            repeat Cancel,
-        },
-        char[] tag7,
-        repeat string msgKind,
-    },
-    u8 lastPx,
-    match lastPx as Body {
-        152 : Quote,
-        173 : Cancel,
-        4 : Leg,
-    },
-    u16 Ref @calculatedFrom(""CR\
-C32""),
-}
-")).
-Eval vm_compute in ("<<<M237>>>" ++ check (runes_of_ascii "root
-    packet
-    asx { // `tick` ""quote"" 'q'
-f32a	,
-@calculatedFrom(
-""abc"") zchar[ 65535 ]	metadata `
-` , @calculatedFrom(// " ++ [128512]%N ++ runes_of_ascii " emoji
-""CRC32"" // `tick` ""quote"" 'q'
-) Header `doc`
-    // @lengthOf(
-    , match
-f32a as
-msg_type
-// @lengthOf(
-//x
-{ [ ""\n"" ] /// triple
-:
-charz// @lengthOf(
-0123456789 :
-pack
-    // `tick` ""quote"" 'q'
-    ,//x
-[ ""packet"" , """",
-    // @lengthOf(
-    ""`tick`"" ,
-    ""CRC32"" , ""\n"" ,
-// `tick` ""quote"" 'q'
-// trailing space 
-""it's""//	t
-,
-""it's"", //
-4294967296 ]
-:
-charz
-42
-    : leftPad , [
-255 ,	7 , ""packet"" , // trailing space 
-""{,}""
-    , ""\" ++ [233]%N ++ runes_of_ascii """ ,""1""
-    ,	""1""  ] : msg_type
-,
-    [ """ ++ [128512]%N ++ runes_of_ascii """
-    ]:  i64_ } ,  }packet body { } root packet i64_
-    { uint16  Header @calculatedFrom(
-""" ++ [233]%N ++ runes_of_ascii "t" ++ [233]%N ++ runes_of_ascii """ )
-    ``
-    ,float64 string_@calculatedFrom( // a // b
-""`tick`"") , repeat zchar[ // @lengthOf(
-1] packetx`it's` ,
-} //	t")).
-Eval vm_compute in ("<<<M1891>>>" ++ check (runes_of_ascii "  // top
-  options
-
-// c0
-
-  {
-    // c1
-  zchar 
-    // c2
-
-  =
-
-    // c3
-	true
-    // c4
-  ;
-    // c5
-  	Pad
-
-    // c6
-	  =
-// c7
-  	char[ 
-
-    // c8
-    	00
-	    // c9
-]
-	// c10
-	a1 
-// c11
-    =
-    // c12
-	uint32 
-    // c13
-	  BodyLength
-        // c14
-      = 
-    // c15
-  	true
-	// c16
-; 
-        // c17
-} 
-      // c18
-	  root
-    // c19
-	packet  
-      // c20
-      T
-// c21
-	{ 
-    // c22
-	@lengthOf( 
-
-    // c23
-  repeatCount
-    // c24
     )
-// c25
-    	@tag( 
-// c26
-	1 
-      // c27
-) 
-// c28
-@calculatedFrom( 
-	    // c29
-    ""a	b""
-        // c30
 
-  )
-// c31
-	string 
-        // c32
-  stringy
-    // c33
-	@calculatedFrom( 
+    i64_@calculatedFrom( 
+""\" ++ [233]%N ++ runes_of_ascii """ ) 
+`// not a comment`, tag
+    Z9_
+`two words`
 
-// c34
-	""\n""
-    // c35
-    ) 
-    // c36
-    	`u8 x,` 
-
-    // c37
-  ,  
-      // c38
-  	}
-
-// c39
- 
-")).
-Eval vm_compute in ("<<<M201>>>" ++ check (runes_of_ascii "packet charz
-{ //	t
-repeat i64_ ,trueish {
-repeat _x
-    ,	repeatCount, repeat u16
-matchKey `
-`
-,
-// " ++ [128512]%N ++ runes_of_ascii " emoji
-// a // b
-matchKey @calculatedFrom( ""a\""b"" )
-`it's` ,}	,
-@tag(
-007 )@calculatedFrom(
-    ""a\\"")	@tag(
-    3 // @lengthOf(
-)f32 f32a @lengthOf(asx ) `crlf
-line` // packet A { u8 x, }
-, repeat i8 string_
-,
-    @lengthOf(
-    // @lengthOf(
-    Logon  ) @lengthOf( x_y_z )
-    @lengthOf(
-zchar
-    ) repeat char[ 65535	] Foo`" ++ [233]%N ++ runes_of_ascii "`,
-@calculatedFrom(//
-""abc""
-) trueish @lengthOf( A )
-// " ++ [27880; 37322]%N ++ runes_of_ascii "
-// a // b
-,char[ 0 ] float , Packet
-    @calculatedFrom( ""a	b""
-), } MetaData
-    Pad { char[ 00 ] leftPad , u8 rootA `
-`,
-//
-// " ++ [128512]%N ++ runes_of_ascii " emoji
-int32
-    a1	`say ""hi""`
     ,
-Z9_ float , //x
-i32 Pad ,
-}")).
-Eval vm_compute in ("<<<M247>>>" ++ check (runes_of_ascii "
-options { leftPad // packet A { u8 x, }
-= 0
-;
-    //
-    Logon
-    =
-char // `tick` ""quote"" 'q'
-i64_ = '\x00'
-; }
-options { crc =
-i32	; matchKey =
-255
-    leftPad = ' ' ; metadata= 42// trailing space 
-; packetx =10
-    }
-root packet//
-A { @calculatedFrom( ""x y"" // c
-)/// triple
-zchar[ 00]
-f32a, @tag(
-255 )
-    zchar[
-0123456789 ]	a1
-@lengthOf(As )`" ++ [28040; 24687; 31867; 22411]%N ++ runes_of_ascii "`
-    /// triple
-    , int16 body, // `tick` ""quote"" 'q'
-uint64
-x
-@calculatedFrom(""1""
-//	t
-// " ++ [128512]%N ++ runes_of_ascii " emoji
-) // packet A { u8 x, }
-`line1
-line2` ,@lengthOf( Logon )char[
-    0// packet A { u8 x, }
-]float@calculatedFrom(
-""abc"" ) ,
-} MetaData u128 { }
-")).
-Eval vm_compute in ("<<<M66>>>" ++ check (runes_of_ascii "packet	int {// @lengthOf(
-repeat
-string
-    BodyLength
-    `a\`
-    , } packet repeatCount { @lengthOf( x_y_z ) crc ,
-    match Packet as
-Z9_{""// no comment"" :MetaDataX ,
-//	t
-// a // b
-[  00, 7]: chars ,""CRC32""
-    : zchar 42: stringy //	t
-, [ ""a\""b"",""1""// a // b
-] : u ,
-},
-@rightPad
-( ' ' )
-@lengthOf( i64_//x
+
+@lengthOf(
+
+    asx ) @calculatedFrom(
+""`tick`""
 )
-    repeat
-f64
-x `two words`
-    , @calculatedFrom(""`tick`""	) int64 falsey @lengthOf(//x
-u128 ) , charz
-    {
-    //x
-    char[]
-    T
+	match uint8x as matchKey { 0123456789
+	// packet A { u8 x, }
+  // a // b
+  :u8x
+	, 1
+
+    :zchar
+
+,
+	},
+u128
+@lengthOf( 
+u128// packet A { u8 x, }
+      )// " ++ [128512]%N ++ runes_of_ascii " emoji
+
+,
+    }
+	MetaData	msg_type{string	BodyLength
+`two words` ,
+options1// " ++ [128512]%N ++ runes_of_ascii " emoji
+	  i64_  ,
+
+} 	 // " ++ [128512]%N ++ runes_of_ascii " emoji
+    	packet roots
+
+{u
+``
+
+,
+@calculatedFrom(
+""a	b""
+	) match len
+    as
+
+    msg_type{ 
 // c
-// " ++ [27880; 37322]%N ++ runes_of_ascii "
-`a\` ,
-}
-,@lengthOf(
-    u8x)string_, repeat
-// " ++ [128512]%N ++ runes_of_ascii " emoji
-//	t
-x
-    , }
+  """ ++ [28040; 24687]%N ++ runes_of_ascii """
+
+    :
+    charz 
+}  ,
+crc	@calculatedFrom(
+    // packet A { u8 x, }
+	  // packet A { u8 x, }
+	""it's"" )
+
+    `a\` ,
+@leftPad
+
+    (
+
+    '0'	)@tag( 007
+)
+
+zchar[  // trailing space 
+  3 
+    // trailing space 
+
+	]falsey  ,	@calculatedFrom(  // `tick` ""quote"" 'q'
+    	""\n"" 
+) @calculatedFrom(
+""CRC32""  // c
+	)  
+  // trailing space 
+match 
+//x
+
+	Packet
+
+as // @lengthOf(
+  stringy {1:Pad 
+,	""it's""
+
+    : 
+f32a
+
+    ,
+    }  ,
+
+    @leftPad
+(' '
+
+)match// " ++ [27880; 37322]%N ++ runes_of_ascii "
+  int as
+a1
+{ 
+[ 0123456789
+
+,
+255]: options1
+	    //x
+    //x
+	}
+,
+    BodyLength
+
+    //
+
+	@calculatedFrom(
+    """ ++ [28040; 24687]%N ++ runes_of_ascii """  ) ,  float32 zchar	@calculatedFrom(
+""// no comment""  )
+
+,	@tag( 
+10 
+)
+
+zchar[  
+  // packet A { u8 x, }
+	1  ]rootA 
+,
+
+    }
+
 ")).
-Eval vm_compute in ("<<<M1716>>>" ++ check (runes_of_ascii "MetaData u128 {
-    zchar[3] matchKey `crlf
+Eval vm_compute in ("<<<M1708>>>" ++ check (runes_of_ascii "  root
+    packet  // @lengthOf(
+	repeatCount {
+	@lengthOf( u8x 
+)
+	@calculatedFrom(  ""1""
+	)
+
+@tag(  007
+
+)
+repeat
+	zchar[42
+	]  Header `" ++ [28040; 24687; 31867; 22411]%N ++ runes_of_ascii "` ,
+	match options1	as asx  {
+255  
+      // `tick` ""quote"" 'q'
+
+  :
+    roots 
+,  }
+	,  // a // b
+	Header
+@lengthOf(
+// a // b
+options1)
+
+``
+
+, Header 	 //	t
+    	@lengthOf(	len 
+) 
+`{ , }` ,
+o 
+matchKey `u8 x,`	,  }
+
+packet packetx	{
+	zchar[
+
+    255]crc
+	,	}packet 
+Logon
+    {  body
+    { 
+float
+	{  repeat 
+Logon
+
+    trueish
+,
+
+} ,}  ,
+	@calculatedFrom( 
+  // `tick` ""quote"" 'q'
+  	""`tick`"" )
+repeat	char[
+0	]
+
+    f32a 
+, 
+match
+	body
+    as
+float{
+    [
+
+65535
+,
+    """ ++ [28040; 24687]%N ++ runes_of_ascii """]
+    :calculatedFrom,
+	},
+u32 float @calculatedFrom(
+
+""" ++ [233]%N ++ runes_of_ascii "t" ++ [233]%N ++ runes_of_ascii """// @lengthOf(
+)
+
+,	string
+
+    body
+@lengthOf(len
+
+) `
+`//
+, u8x@calculatedFrom( 
+""a\""b""	)
+//	t
+	  ,  //	t
+    float64
+    options1 @calculatedFrom(	""" ++ [128512]%N ++ runes_of_ascii """)
+	`it's`
+,  
+      //x
+  // trailing space 
+
+match 
+crc as
+
+chars  {
+
+    3 :
+options1 // @lengthOf(
+    ,
+    [ 10
+    ] :	_x
+
+    [""{,}"" 
+]
+	:options1,
+[
+
+    ""CRC32""	,
+""a\\""
+, ""a\\""
+, 
+""packet""
+
+    ,  7
+
+// `tick` ""quote"" 'q'
+	]	:As
+
+} 
+, 
+i16	msg_type ,
+
+    }
+
+")).
+Eval vm_compute in ("<<<M129>>>" ++ check (runes_of_ascii "packet
+MetaDataX { metadata trueish`" ++ [233]%N ++ runes_of_ascii "`
+//x
+//x
+,// trailing space 
+@calculatedFrom(""`tick`"" )uint8x
+    // c
+    @calculatedFrom(  """ ++ [128512]%N ++ runes_of_ascii """  ) `{ , }`
+    , @calculatedFrom( ""a\""b"" ) // packet A { u8 x, }
+match Packet as
+    body { 3
+    : repeatCount
+,""x y""
+    /// triple
+    :lengthOf// `tick` ""quote"" 'q'
+4294967296 :
+    packetx
+    , [ ""abc""
+, ""// no comment""
+    ,
+""abc"" ,
+""\n"" //	t
+, ""1""
+]: u128 [ 00 , 65535 ,""x y"" ,""{,}""  ]
+: calculatedFrom ,
+    7 :	i8i8  }, u8x ,match int as	matchKey{
+[1 ,""CRC32""]
+    // trailing space 
+    :// @lengthOf(
+asx,	}
+    , @lengthOf( // " ++ [128512]%N ++ runes_of_ascii " emoji
+a1) string x `it's` , repeat // @lengthOf(
+char matchKey  ,
+    // a // b
+    @leftPad // trailing space 
+( )@rightPad ( ) match
+metadata	as  Packet { [ 65535  ] : Header , }, @tag( 255)
+zchar[ 3 ] crc `u8 x,` ,} MetaData
+    rootA // trailing space 
+{
+i8i8	Pad , int8
+packetx `{ , }`
+,
+    int8 stringy,
+    // `tick` ""quote"" 'q'
+    body _x  , body o , }")).
+Eval vm_compute in ("<<<M1123>>>" ++ check (runes_of_ascii "// top
+options
+    // c0
+{
+    // c1
+uint8x
+    // c2
+=
+    // c3
+007
+    // c4
+;
+    // c5
+lengthOf
+    // c6
+=
+    // c7
+i8
+    // c8
+;
+    // c9
+}
+    // c10
+packet
+    // c11
+i64_
+    // c12
+{
+    // c13
+@calculatedFrom(
+    // c14
+""1""
+    // c15
+)
+    // c16
+@tag(
+    // c17
+3
+    // c18
+)
+    // c19
+@lengthOf(
+    // c20
+rootA
+    // c21
+)
+    // c22
+repeat
+    // c23
+int8
+    // c24
+Packet
+    // c25
+`u8 x,`
+    // c26
+,
+    // c27
+}
+    // c28
+root
+    // c29
+packet
+    // c30
+stringy
+    // c31
+{
+    // c32
+@rightPad
+    // c33
+(
+    // c34
+' '
+    // c35
+)
+    // c36
+repeat
+    // c37
+char[
+    // c38
+10
+    // c39
+]
+    // c40
+repeatCount
+    // c41
+,
+    // c42
+@tag(
+    // c43
+255
+    // c44
+)
+    // c45
+float64
+    // c46
+msg_type
+    // c47
+@calculatedFrom(
+    // c48
+""packet""
+    // c49
+)
+    // c50
+,
+    // c51
+}
+    // c52
+")).
+Eval vm_compute in ("<<<M230>>>" ++ check (runes_of_ascii "packet rootA{	match
+zchar as
+    // " ++ [128512]%N ++ runes_of_ascii " emoji
+    int {
+    [ ""it's""
+, ""1""]
+    :// c
+tag ,
+    } , char Packet @lengthOf( body ) , metadata @lengthOf( packetx ) ,@calculatedFrom( """ ++ [128512]%N ++ runes_of_ascii """	)match
+    repeatCount as f32a { """ ++ [28040; 24687]%N ++ runes_of_ascii """
+    :chars ,
+    }
+    ,@lengthOf(string_ )char[ 0
+    //
+    ] len @calculatedFrom(
+""abc"" )
+,
+    // `tick` ""quote"" 'q'
+    u8 uint8x@lengthOf( roots)  `say ""hi""`
+, int @calculatedFrom( ""a\""b"") ,match
+msg_type as i8i8 {// c
+""\" ++ [233]%N ++ runes_of_ascii """
+// " ++ [27880; 37322]%N ++ runes_of_ascii "
+// packet A { u8 x, }
+: Header , 1 : zchar,
+    [ ""\n""	]
+:	string_
+""\n"" :i8i8 0123456789 : Logon
+    [ 00 , 007 ,""1"" ,
+    //	t
+    ""it's""
+    , ""// no comment""
+    ,
+    0
+, ""a\\"" ,// packet A { u8 x, }
+007 ]
+    :BodyLength}
+, match rootA as // c
+chars  {
+7
+:
+    // @lengthOf(
+    Header }
+, A Foo `tab	here` ,
+}
+")).
+Eval vm_compute in ("<<<M4>>>" ++ check (runes_of_ascii "packet
+    // " ++ [128512]%N ++ runes_of_ascii " emoji
+    u128
+{ repeat char[
+// trailing space 
+// packet A { u8 x, }
+65535 ] float ,
+}
+options  { f32a
+= char[] ; } packet// trailing space 
+_x { @rightPad ('0' ) // packet A { u8 x, }
+@lengthOf(i8i8) @lengthOf(lengthOf
+)  repeat	Z9_//x
+`crlf
+line`, string_ {
+// `tick` ""quote"" 'q'
+// c
+zchar[7
+]x_y_z , Header x
+`line1
+line2` ,
+    }, //	t
+@leftPad ( )
+    match float
+as	x_y_z
+{ """ ++ [28040; 24687]%N ++ runes_of_ascii """ : metadata, 007 :
+    A,00 : falsey
+    , 0123456789  : Foo // trailing space 
+,0123456789
+:
+    zchar
+, } ,@calculatedFrom( ""1"" )
+@tag(
+/// triple
+/// triple
+0	) char[
+00 ] options1	, } packet Pad{
+u16
+body
+@lengthOf( stringy // c
+), } options { BodyLength ='0'msg_type =""a\""b"" ; }
+
+")).
+Eval vm_compute in ("<<<M1404>>>" ++ check (runes_of_ascii "// `tick` ""quote"" 'q'
+packet As {
+    @rightPad('0')
+    stringy @lengthOf(calculatedFrom),
+    @tag(10)
+    string uint8x `
+    `,
+    match body as uint8x {
+        ""it's"" : rootA,
+        [00] : leftPad,
+        42 : MetaDataX,
+        ""a	b"" : calculatedFrom,
+        255 : trueish,
+    },
+    repeat i64 Logon `tab	here`,
+}
+
+options {
+    crc = '\x00';
+}
+
+packet x {
+    @calculatedFrom(""a\\"")
+    @tag(42)
+    @leftPad('0')
+    match o as x_y_z {
+        // packet A { u8 x, }
+        [
+            0123456789, 007, 3, 007, """ ++ [128512]%N ++ runes_of_ascii """,
+            ""x y"", ""CRC32"", ""it's""
+        ] : Packet,
+        // c
+        [255, ""x y""] : x_y_z,
+    },
+}")).
+Eval vm_compute in ("<<<M348>>>" ++ check (runes_of_ascii "root // c
+packet asx { @rightPad
+    (
+' ' ) @lengthOf(  int)@tag( 0 ) u64 uint8x @calculatedFrom( ""packet"")
+    ,  uint32 i64_ ,
+    // c
+    repeat options1 o,match f32a as /// triple
+falsey// " ++ [27880; 37322]%N ++ runes_of_ascii "
+{ 42 : stringy 10 :
+As, """" :
+    Packet ,
+} ,@calculatedFrom(""it's""
+) // " ++ [128512]%N ++ runes_of_ascii " emoji
+f64	a1 ,
+    @lengthOf(
+    tag )
+    match roots as MetaDataX
+{
+""" ++ [128512]%N ++ runes_of_ascii """:  f32a
+    , ""\n"" :
+    As [ 255 ]: A ,  }, a1 @calculatedFrom(	""abc"" )
+`` , @rightPad(
+)
+    @rightPad (
+    '\x00'
+)@calculatedFrom(
+""CRC32"" )body As , }  root packet packetx
+{
+//x
+//
+repeat lengthOf Logon `" ++ [28040; 24687; 31867; 22411]%N ++ runes_of_ascii "` , //	t
+}")).
+Eval vm_compute in ("<<<M1752>>>" ++ check (runes_of_ascii "// a // b
+packet stringy {
+    @tag(3)
+    // trailing space 
+    i64 len,
+    @calculatedFrom(""1"")
+    char[0] x @lengthOf(Foo),
+    @calculatedFrom("""")
+    body @lengthOf(calculatedFrom) `line1
+    line2`,
+    @calculatedFrom(""it's"")
+    // packet A { u8 x, }
+    match falsey as u8x {
+        [42, 1, 10, """ ++ [128512]%N ++ runes_of_ascii """] : Header,
+    },
+}
+
+MetaData stringy {
+    f32a u128 `{ , }`,
+    char[10] u128,
+    chars _x,
+    zchar[65535] falsey `{ , }`,
+    _x i64_,
+    int32 Packet `crlf
     line`,
 }
 
-// packet A { u8 x, }
-options {
-}
-
-root packet rootA {
-    @calculatedFrom(""{,}"")
-    repeat u16 len,
-    repeat body,
-    i8i8 @lengthOf(packetx),
-    metadata int `line1
+MetaData lengthOf {
+}")).
+Eval vm_compute in ("<<<M1574>>>" ++ check (runes_of_ascii "root packet int {
+    repeat float tag,
+    char[] roots,
+    @lengthOf(repeatCount)
+    @lengthOf(rootA)
+    uint16 o `tab	here`,
+    //	t
+    i16 Pad `line1
     line2`,
-    uint8x `two words`,
-    int16 x_y_z,
-    repeatCount,
-    Logon {
-        repeat i8 Packet `line1
-        line2`,
+    Pad {
+        match Pad as _x {
+            [00] : Z9_,
+        },
+    },
+    repeat zchar calculatedFrom `a\`,
+    f64 charz,
+    Pad Foo,
+    @calculatedFrom(""" ++ [28040; 24687]%N ++ runes_of_ascii """)
+    charz @lengthOf(charz),
+    @lengthOf(rootA)
+    match o as body {
+        00 : x_y_z,
+        // " ++ [128512]%N ++ runes_of_ascii " emoji
+    },
+}")).
+Eval vm_compute in ("<<<M1433>>>" ++ check (runes_of_ascii "packet u {
+    @lengthOf(zchar)
+    match Header as len {
+        42 : x_y_z,
+    },
+    rootA `
+    `,
+    match u8x as pack {
+        [1, """"] : float,
+        ""abc"" : string_,
+        42 : i64_,
+        1 : zchar,
+    },
+    char[3] int,
+    match options1 as u128 {
+        [""`tick`""] : u,
     },
 }
 
 options {
-    // " ++ [128512]%N ++ runes_of_ascii " emoji
-    lengthOf = ' ';
-    i64_ = ""{,}"";
-    msg_type = '0';
-    u = i32;
-    _x = ""abc"";
+    len = i8;
+    zchar = true;
+}
+
+packet T {
+    char[42] asx @calculatedFrom(""CRC32""),
 }")).
-Eval vm_compute in ("<<<M1363>>>" ++ check (runes_of_ascii "options {
-    LittleEndian = true;
-    StringPrefixLenType = u64;
-    ArrayPrefixLenType = u16;
-    FixedStringPadFromLeft = false;
-    FixedStringPadChar = ' ';
-}
-packet Logon {
-    zchar[5] Side2,
-}
-root packet Logout {
-    repeat i64 Tail,
-    Logon,
-    repeat i16 OrderId,
-    char[] venue,
-    uint64 x,
-    repeat i16 count,
-    u8 Flags,
-    match Flags as Body {
-        25 : Logon,
-    },
-    u16 Qty @calculatedFrom(""CRC32""),
-}
-")).
-Eval vm_compute in ("<<<M1533>>>" ++ check (runes_of_ascii "  packet
-
-    a1
-    {
-@leftPad	()
-
-    float @lengthOf( uint8x )
-, } packet Logon
-{
-char
-
-Logon@calculatedFrom(
-""a\\"" )
-    , T
-
-    stringy
-    , 
-	    //
-	// c
-  repeat uint8 stringy 
-`two words`, } MetaData 
-charz 
-{u
-	tag
-	`
-` ,
-    a1 falsey , //x
-  Z9_
-
-    matchKey, f64
-
-    lengthOf`a\`	// @lengthOf(
-,	f32a roots 
-``
-    ,
-    float64
-x_y_z  // @lengthOf(
-	  ,
-
-} ")).
-Eval vm_compute in ("<<<M106>>>" ++ check (runes_of_ascii "MetaData Pad
-    {
-    i16 repeatCount , // c
-f32 pack `a\`,} packet//
-f32a {@lengthOf( metadata // a // b
-)match msg_type as matchKey
-    {
-00: rootA ,  }, @rightPad ( ) match repeatCount as len {
-    [/// triple
-""x y""
+Eval vm_compute in ("<<<M372>>>" ++ check (runes_of_ascii "// @lengthOf(
+MetaData leftPad { string	options1`say ""hi""` ,
+    //x
+    int16 metadata`" ++ [233]%N ++ runes_of_ascii "`,f32 i64_
+//	t
 // c
-//
-,
-10] : As , 42: i64_""" ++ [128512]%N ++ runes_of_ascii """	: BodyLength
-, 7
-: f32a  ,
-    }
-    ,	@lengthOf( BodyLength )	repeat Foo `line1
-line2` , } // @lengthOf(")).
-Eval vm_compute in ("<<<M1504>>>" ++ check (runes_of_ascii "options {
-}
-
-packet charz {
-    @rightPad(' ')
-    @calculatedFrom(""a\\"")
-    repeat int crc `two words`,
-    string stringy @calculatedFrom(""a	b"") `// not a comment`,//
-    char i8i8,
-}
-
-MetaData crc {
-    crc i64_ `{ , }`,
-    i32 u128,
-    BodyLength Header,
-    char[0123456789] Packet `u8 x,`,
-    uint8 repeatCount,
-}")).
-Eval vm_compute in ("<<<M321>>>" ++ check (runes_of_ascii "
-options
-{ a1 = '\x00'
-As
-= ""{,}"" u8x
-=//x
-""a	b""
-    ; asx
-    = u64;
-o
-// @lengthOf(
-// c
-=0123456789 } packet Header
-{
+, }  packet
+trueish { // c
+MetaDataX roots ,_x
+    a1 , match
+packetx as charz { 0
+: // c
+f32a ,
+} //
+, repeat body Logon , }	options { repeatCount=
+    int8
+charz // `tick` ""quote"" 'q'
+=	char[];  msg_type =""it's""	u
+=
+    007 Z9_
+    = uint32
     //
-    @lengthOf(x // trailing space 
-)
-    // " ++ [27880; 37322]%N ++ runes_of_ascii "
-    repeat
-falsey { repeatCount
-    trueish
-`u8 x,` , } ,
-// `tick` ""quote"" 'q'
-// " ++ [128512]%N ++ runes_of_ascii " emoji
-zchar[
-65535 ] x
-    ,
-}")).
+    }")).
+Eval vm_compute in ("<<<M194>>>" ++ check (runes_of_ascii "// `tick` ""quote"" 'q'
+options
+    //	t
+    { }  packet lengthOf // `tick` ""quote"" 'q'
+{  } packet
+// a // b
+// " ++ [27880; 37322]%N ++ runes_of_ascii "
+Foo {
+@tag(
+1
+) string
+uint8x ,_x { chars  , string uint8x , i64 _x //
+`it's`
+    , repeat uint8 As,	}
+, float32
+f32a , @leftPad( '\x00')
+    @calculatedFrom( """ ++ [28040; 24687]%N ++ runes_of_ascii """
+) // trailing space 
+uint8 Logon
+,
+    }")).
+Eval vm_compute in ("<<<M1767>>>" ++ check (runes_of_ascii "// top
+packet A {
+    // c2
+    u8 a,
+}// c6a
+
+// c6b
+packet B {
+    u16 b,
+}
+
+// c13
+root packet P {
+    // c17a
+    // c17b
+    u8 K1,// c20
+    u8 K2,// c23a
+    // c23b
+    match K1 as M1 {
+        // c28a
+        // c28b
+        1 : A,
+    },
+    match K2 as M2 {
+        1 : B,
+    },
+}// c46")).
 Eval vm_compute in ("<<<M1322>>>" ++ check (runes_of_ascii "packet
 
     P1
@@ -757,113 +800,59 @@ P4,
 	2 : P2 , 1
 : P1	,
 }	,  }")).
-Eval vm_compute in ("<<<M1306>>>" ++ check (runes_of_ascii "// top
-packet // c0a
-  // c0b
-orderItem // c1a
-  // c1b
-{ u8 // c3
-a // c4
-, // c5a
-  // c5b
-}
-    // c6
-root packet // c8a
-  // c8b
-newOrder // c9a
-  // c9b
-{ orderItem // c11
-, u8
-    // c13
-x // c14a
-  // c14b
-,
-    // c15
-} // c16
+Eval vm_compute in ("<<<M203>>>" ++ check (runes_of_ascii "root packet Pad {match //	t
+falsey as
+    A{
+255:// `tick` ""quote"" 'q'
+T, } , int64
+Header	`tab	here`
+, repeat i64_ `line1
+line2`, @tag( 7 )
+    float32	zchar
+    @calculatedFrom( ""\" ++ [233]%N ++ runes_of_ascii """
+    )
+//
+// @lengthOf(
+,u64 Header ,
+    }
 ")).
-Eval vm_compute in ("<<<M1935>>>" ++ check (runes_of_ascii "
-packet
-	    // `tick` ""quote"" 'q'
-    _x {  //
+Eval vm_compute in ("<<<M1729>>>" ++ check (runes_of_ascii "
+options 
+{
 
-  repeat 
-zchar[ 
-1 ]
-    metadata	, @leftPad ( 
-' ' )
+Logon
+	=char[
+    00	];
+    zchar=
 
-    @lengthOf(
-T 
-)
-@lengthOf(Z9_
-	) char[]As  // @lengthOf(
-  , string
+    false
+Logon 
+= 
+i8
+;} options{  asx ='0' int
 
-    f32a, 
+=
+
+""\" ++ [233]%N ++ runes_of_ascii """
+    calculatedFrom
+
+=  '\x00'// packet A { u8 x, }
+    ; 	 // `tick` ""quote"" 'q'
+}")).
+Eval vm_compute in ("<<<M1597>>>" ++ check (runes_of_ascii "packet x_y_z {
+    rootA @lengthOf(o) `two words`,
 }
 
-")).
-Eval vm_compute in ("<<<M1597>>>" ++ check (runes_of_ascii "MetaData Z9_ {
-    zchar[4294967296] leftPad `u8 x,`,
+MetaData f32a {
+    trueish x,
 }
 
 MetaData body {
-    trueish len `// not a comment`,
-}
-
-root packet u8x {
-    char[10] x @calculatedFrom(""\" ++ [233]%N ++ runes_of_ascii """),
-}")).
-Eval vm_compute in ("<<<M1392>>>" ++ check (runes_of_ascii "
-packet A 
-{Inner
-    {
-
-match k
-	as
-n
-    {
-	[  1 ,22	,
-
-007
-    ,
-    4
-	,
-5
-,
-66 ,
-    7  , 
-8,
-9
-    , 10 
-, 11 ,
-
-    12  ]
-: B ,
-
-    }  , 
-},}")).
-Eval vm_compute in ("<<<M1402>>>" ++ check (runes_of_ascii "
-
-  MetaData
-    leftPad	{chars  MetaDataX
-    , 
-// c
-      } 
-packet repeatCount 
-{
-char[
-255]uint8x
-`" ++ [233]%N ++ runes_of_ascii "`,	}
-MetaData	pack
-
-    {
-
-As
-    Foo	, 
-}
-")).
-Eval vm_compute in ("<<<M531>>>" ++ check (runes_of_ascii "packet uint8x
+    u128 pack,
+    f64 float,
+    char[65535] tag `" ++ [233]%N ++ runes_of_ascii "`,
+}// " ++ [128512]%N ++ runes_of_ascii " emoji")).
+Eval vm_compute in ("<<<M481>>>" ++ check (runes_of_ascii "packet uint8x
 { match pack
     as msg_type	{
     0123456789 :	float
@@ -871,249 +860,267 @@ Eval vm_compute in ("<<<M531>>>" ++ check (runes_of_ascii "packet uint8x
 ,
 } packet //	t
 a1
-    { } options {packetx
-    = '\x00'	; u128= ""a	b""  ; } }
-")).
-Eval vm_compute in ("<<<M427>>>" ++ check (runes_of_ascii "packet uint8x
-{ match pack
-    as msg_type	0123456789
-    { :	float
-}
-,
-} packet //	t
-a1
-    { } options {packetx
+    { } options options {packetx
     = '\x00'	; u128= ""a	b""  ; }
 ")).
-Eval vm_compute in ("<<<M450>>>" ++ check (runes_of_ascii "packet uint8x
-{ match pack
-    as msg_type	{
-    0123456789 :	float
-}
-
-} packet //	t
-a1
-    { } options {packetx
-    = '\x00'	; u128= ""a	b""  ; }
-")).
-Eval vm_compute in ("<<<M1469>>>" ++ check (runes_of_ascii "
-
-  // c
-MetaData
-
-    leftPad { chars
-MetaDataX
-, }packet
-repeatCount
-	{ char[ 255 ] 
-uint8x
-
-    `" ++ [233]%N ++ runes_of_ascii "` ,
-
-    } MetaData pack	{
-
-As Foo , }")).
-Eval vm_compute in ("<<<M460>>>" ++ check (runes_of_ascii "packet uint8x
-{ match pack
-    as msg_type	{
-    0123456789 :	float
-}
-,
-}  //	t
-a1
-    { } options {packetx
-    = '\x00'	; u128= ""a	b""  ; }
-")).
-Eval vm_compute in ("<<<M1931>>>" ++ check (runes_of_ascii "packet A {
-    Inner {
-        u8 x `a
-        
-        b`,
-        Deep {
-            u8 y `a
-            
-            b`,
-        },
-    },
-}")).
-Eval vm_compute in ("<<<M650>>>" ++ check (runes_of_ascii "// @lengthOf(
-packet i8i8 { u128 o , }
-options { MetaDataX = true;
-    BodyLength =""packet"" x_y_z= 007
-crc //x
-=  ;
-    msg_type =
-i16 }")).
-Eval vm_compute in ("<<<M1689>>>" ++ check (runes_of_ascii "packet A {
+Eval vm_compute in ("<<<M1457>>>" ++ check (runes_of_ascii "packet A {
     match k as n {
         [
-            1, 22, 007, 4, 5,
-            66, 7, 8, 9
+            ""a"", ""bb"", ""c c"", ""d"", ""e"",
+            ""f"", ""g"", ""h"", ""i"", ""j""
         ] : B,
         2 : C,
     },
 }")).
-Eval vm_compute in ("<<<M1264>>>" ++ check (runes_of_ascii "packet B {
-    u8 a,
+Eval vm_compute in ("<<<M544>>>" ++ check (runes_of_ascii "packet uint8x
+{ match pack
+    as msg_type	{
+    0123456789 :	float
 }
-root packet P {
-    u8 K,
-    match K as Body {
-        1 : B,
-    },
-    u16 L @lengthOf(Body),
-}
-")).
-Eval vm_compute in ("<<<M1153>>>" ++ check (runes_of_ascii "MetaData leftPad { chars MetaDataX , // c
-} packet repeatCount { char[ 255 ] uint8x `" ++ [233]%N ++ runes_of_ascii "` , } MetaData pack { As Foo , }")).
-Eval vm_compute in ("<<<M1185>>>" ++ check (runes_of_ascii "MetaData leftPad { chars MetaDataX , } packet repeatCount { char[ 255 ] uint8x `" ++ [233]%N ++ runes_of_ascii "` , } MetaData pack { As Foo // c
-, }")).
-Eval vm_compute in ("<<<M1854>>>" ++ check (runes_of_ascii "packet A {
-    B b `a
-        b
-      c`,
-    B `a
-        b
-      c`,
-    repeat B bs `a
-        b
-      c`,
-}")).
-Eval vm_compute in ("<<<M1850>>>" ++ check (runes_of_ascii "MetaData
-
-charz  { As  u128
-, Logon
-options1`say ""hi""` ,zchar[ 0 
-    // @lengthOf(
-
-  //
-]	Logon
 ,
+} packet //	t
+a1
+    { } options {packetx
+    = " ++ [65279]%N ++ runes_of_ascii " '\x00'	; u128= ""a	b""  ; }
+")).
+Eval vm_compute in ("<<<M442>>>" ++ check (runes_of_ascii "packet uint8x
+{ match pack
+    as msg_type	{
+    0123456789 :	}
+float
+,
+} packet //	t
+a1
+    { } options {packetx
+    = '\x00'	; u128= ""a	b""  ; }
+")).
+Eval vm_compute in ("<<<M470>>>" ++ check (runes_of_ascii "packet uint8x
+{ match pack
+    as msg_type	{
+    0123456789 :	float
 }
+,
+} packet //	t
+a1
+     } options {packetx
+    = '\x00'	; u128= ""a	b""  ; }
 ")).
-Eval vm_compute in ("<<<M884>>>" ++ check (runes_of_ascii "packet A {
-  match k as n {
-    [""a"", 22, ""c c"", 4, ""e"", 66, ""g"", 8, ""i"", 10] : B,
-    2 : C
-  },
+Eval vm_compute in ("<<<M667>>>" ++ check (runes_of_ascii "// @lengthOf(
+packet i8i8 { u128 o char }
+options { MetaDataX = true;
+    BodyLength =""packet"" x_y_z= 007
+crc //x
+= ""abc"" ;
+    msg_type =
+i16 }")).
+Eval vm_compute in ("<<<M723>>>" ++ check (runes_of_ascii "// @lengthOf(
+packet i8i8 { u128 o , }
+options { MetaD?ataX = true;
+    BodyLength =""packet"" x_y_z= 007
+crc //x
+= ""abc"" ;
+    msg_type =
+i16 }")).
+Eval vm_compute in ("<<<M704>>>" ++ check (runes_of_ascii "// @lengthOf(
+packet i8i8 { u128 o , }
+options { MetaDataX = true;
+    BodyLength =""packet"" x_y_z 007
+crc //x
+= ""abc"" ;
+    msg_type =
+i16 }")).
+Eval vm_compute in ("<<<M1599>>>" ++ check (runes_of_ascii "packet _x {
+    //
+    repeat zchar[1] metadata,
+    @leftPad(' ')
+    @lengthOf(T)
+    @lengthOf(Z9_)
+    char[] As,
+    string f32a,
 }")).
-Eval vm_compute in ("<<<M1>>>" ++ check (runes_of_ascii "MetaData  crc {  Pad T
-, zchar[
-    0123456789
-    ] a1 ,int8 trueish// c
-, } packet float{ }
-")).
-Eval vm_compute in ("<<<M869>>>" ++ check (runes_of_ascii "packet A {
-  match k as n {
-    [1, ""bb"", 007, ""d"", 5, ""f"", 7, ""h"", 9] : B,
-    2 : C
-  },
-}")).
-Eval vm_compute in ("<<<M640>>>" ++ check (runes_of_ascii "
-packet
-    asx {match u128 as lengthOf
-{
-//	t
-// `tick` ""quote"" 'q'
-$255 : x ,
-    } ,	}")).
-Eval vm_compute in ("<<<M612>>>" ++ check (runes_of_ascii "
-packet
-    asx {match u128 as lengthOf
-{
-//	t
-// `tick` ""quote"" 'q'
-255 : x ,
-     ,	}")).
-Eval vm_compute in ("<<<M860>>>" ++ check (runes_of_ascii "packet A {
-  match k as n {
-    [1, 22, ""c c"", 4, 5, ""f"", 7, 8] : B,
-    2 : C
-  },
-}")).
-Eval vm_compute in ("<<<M582>>>" ++ check (runes_of_ascii "
-packet
-    asx {match u128 as 
-{
-//	t
-// `tick` ""quote"" 'q'
-255 : x ,
-    } ,	}")).
-Eval vm_compute in ("<<<M1701>>>" ++ check (runes_of_ascii "packet A {
-    B b `a
-    b`,
-    B `a
-    b`,
-    repeat B bs `a
-    b`,
-}")).
-Eval vm_compute in ("<<<M811>>>" ++ check (runes_of_ascii "packet A {
-  match k as n {
-    [""a"", ""bb"", 007, ""d""] : B
-    2 : C
-  },
-}")).
-Eval vm_compute in ("<<<M1702>>>" ++ check (runes_of_ascii "packet A {
+Eval vm_compute in ("<<<M1598>>>" ++ check (runes_of_ascii "packet A {
     match k as n {
-        [1] : B,
+        [
+            1, 22, 4, 5, 7,
+            ""c c"", ""f""
+        ] : B,
         2 : C,
     },
 }")).
-Eval vm_compute in ("<<<M1704>>>" ++ check (runes_of_ascii "packet A {
-    match k as n {
-        1 : B,
-        // d
-    },
+Eval vm_compute in ("<<<M1189>>>" ++ check (runes_of_ascii "MetaData leftPad { chars MetaDataX , } packet repeatCount { char[ 255 ] uint8x `" ++ [233]%N ++ runes_of_ascii "` , } MetaData pack { As Foo , } // c
+")).
+Eval vm_compute in ("<<<M1169>>>" ++ check (runes_of_ascii "MetaData leftPad { chars MetaDataX , } packet repeatCount { char[ 255 ] uint8x // c
+`" ++ [233]%N ++ runes_of_ascii "` , } MetaData pack { As Foo , }")).
+Eval vm_compute in ("<<<M1717>>>" ++ check (runes_of_ascii "
+options
+{
+lengthOf
+=3
+trueish
+    // packet A { u8 x, }
+// trailing space 
+=
+true;
+calculatedFrom
+	=
+007;}
+")).
+Eval vm_compute in ("<<<M25>>>" ++ check (runes_of_ascii "packet stringy	{
+    } // packet A { u8 x, }
+packet
+    u128
+    { u16 len@lengthOf( u128)	,
+    //x
+    }
+")).
+Eval vm_compute in ("<<<M352>>>" ++ check (runes_of_ascii "packet _x {
+} // trailing space 
+options
+    { repeatCount
+    =42 //x
+;Pad = true;
+x_y_z =
+65535 ;}
+")).
+Eval vm_compute in ("<<<M1494>>>" ++ check (runes_of_ascii "packet A {
+    u32 crc @calculatedFrom(""\
+        ""),
+    @calculatedFrom(""\
+        "")
+    u8 y,
 }")).
-Eval vm_compute in ("<<<M88>>>" ++ check (runes_of_ascii "options// @lengthOf(
-{a1 = 65535
-// `tick` ""quote"" 'q'
-// c
+Eval vm_compute in ("<<<M1254>>>" ++ check (runes_of_ascii "
+packet
+    Inner {
+    u8 a
+
+,
+} root
+	packet P
+
+    {  repeat
+    Inner items,	u8 
+x	, } ")).
+Eval vm_compute in ("<<<M226>>>" ++ check (runes_of_ascii "// a // b
+packet Pad {
+    char[] // packet A { u8 x, }
+Z9_ @lengthOf( Pad
+) `{ , }` , } 	 ")).
+Eval vm_compute in ("<<<M69>>>" ++ check (runes_of_ascii "//
+packet metadata
+{ }	MetaData chars
+//x
+//	t
+{
+    char[ 42	] leftPad `crlf
+line`  ,
 }")).
-Eval vm_compute in ("<<<M1682>>>" ++ check (runes_of_ascii "options {
-    a = ""x\
-        y"";
-    b = ""x\
-        y""
+Eval vm_compute in ("<<<M850>>>" ++ check (runes_of_ascii "packet A {
+  match k as n {
+    [""a"", ""bb"", 007, ""d"", ""e"", 66, ""g""] : B
+    2 : C
+  },
 }")).
-Eval vm_compute in ("<<<M1596>>>" ++ check (runes_of_ascii "root packet x {
-    roots @calculatedFrom(""a\""b""),
+Eval vm_compute in ("<<<M1382>>>" ++ check (runes_of_ascii "packet  A	{
+
+match
+k as
+n
+{ [
+	1
+, 22
+	, 007
+
+,4	]  :
+
+    B
+
+    2
+:  C}, }
+
+")).
+Eval vm_compute in ("<<<M748>>>" ++ check (runes_of_ascii "options match @lengthOf( options char[] zchar[ MetaData f32 f64 u16 ""{,}"" `doc` (")).
+Eval vm_compute in ("<<<M269>>>" ++ check (runes_of_ascii "options
+{ Z9_ ='\x00'  } packet trueish
+{ // " ++ [128512]%N ++ runes_of_ascii " emoji
+u16 calculatedFrom
+, }")).
+Eval vm_compute in ("<<<M67>>>" ++ check (runes_of_ascii "options { charz =""1"" _x= """ ++ [128512]%N ++ runes_of_ascii """ u = string ; stringy=
+""" ++ [28040; 24687]%N ++ runes_of_ascii """ }
+// @lengthOf(
+")).
+Eval vm_compute in ("<<<M809>>>" ++ check (runes_of_ascii "packet A {
+  match k as n {
+    [1, 22, ""c c"", 4] : B
+    2 : C
+  },
 }")).
-Eval vm_compute in ("<<<M375>>>" ++ check (runes_of_ascii "options {Foo = '0'	;	Pad = '0';	crc ='0' ; //	t
-}")).
-Eval vm_compute in ("<<<M968>>>" ++ check (runes_of_ascii "options {
+Eval vm_compute in ("<<<M653>>>" ++ check (runes_of_ascii "// @lengthOf(
+packet i8i8 { u128 o , }
+options { MetaDataX = true")).
+Eval vm_compute in ("<<<M204>>>" ++ check (runes_of_ascii "  options {// " ++ [128512]%N ++ runes_of_ascii " emoji
+Packet =// `tick` ""quote"" 'q'
+char[3 ]}")).
+Eval vm_compute in ("<<<M1926>>>" ++ check (runes_of_ascii "
+
+  root	packet
+P  {
+repeat
+
+    char 
+cs 
+,
+u8 x
+	, }")).
+Eval vm_compute in ("<<<M1203>>>" ++ check (runes_of_ascii "packet body { // c
+i32 f32a `{ , }` , } options { }")).
+Eval vm_compute in ("<<<M1257>>>" ++ check (runes_of_ascii "
+root	packet
+
+P	{
+	hdr {u8  a,
+}  ,u8 
+x , 
+}
+")).
+Eval vm_compute in ("<<<M965>>>" ++ check (runes_of_ascii "options {
     a = ""x\
 y"";
     b = ""x\
 y""
 }")).
-Eval vm_compute in ("<<<M1398>>>" ++ check (runes_of_ascii "  packet	A
-	{ u8
+Eval vm_compute in ("<<<M1096>>>" ++ check (runes_of_ascii "packet A { u8 x,// a
 
-x  `d `, 	 // c 
+
+// b
+
+ u8 y, }")).
+Eval vm_compute in ("<<<M105>>>" ++ check (runes_of_ascii "// " ++ [128512]%N ++ runes_of_ascii " emoji
+MetaData crc
+    {  }")).
+Eval vm_compute in ("<<<M1008>>>" ++ check (runes_of_ascii "packet A {
+ u8 x `d" ++ [8202]%N ++ runes_of_ascii "`, // c" ++ [8202]%N ++ runes_of_ascii "
+}")).
+Eval vm_compute in ("<<<M1681>>>" ++ check (runes_of_ascii "
+packet 
+x 	 // c
+  {
 }
+
 ")).
-Eval vm_compute in ("<<<M922>>>" ++ check (runes_of_ascii "root packet A {
-    u8 x `a
-b`,
-}")).
-Eval vm_compute in ("<<<M983>>>" ++ check (runes_of_ascii "packet A {
- u8 x `d" ++ [12288]%N ++ runes_of_ascii "`, // c" ++ [12288]%N ++ runes_of_ascii "
-}")).
-Eval vm_compute in ("<<<M917>>>" ++ check (runes_of_ascii "packet A {
-    u8 x `a
-b`,
-}")).
-Eval vm_compute in ("<<<M380>>>" ++ check (runes_of_ascii "root packet	Packet { }
-")).
-Eval vm_compute in ("<<<M1381>>>" ++ check (runes_of_ascii "// top
-MetaData u {
-}")).
-Eval vm_compute in ("<<<M744>>>" ++ check (runes_of_ascii "`" ++ [28040; 24687; 31867; 22411]%N ++ runes_of_ascii "` '0' options")).
-Eval vm_compute in ("<<<M1056>>>" ++ check (runes_of_ascii "packet A {
+Eval vm_compute in ("<<<M1104>>>" ++ check (runes_of_ascii "
+// c
+MetaData tag { }")).
+Eval vm_compute in ("<<<M1129>>>" ++ check (runes_of_ascii "
+// c
+MetaData u { }")).
+Eval vm_compute in ("<<<M991>>>" ++ check (runes_of_ascii "packet A {
 }
-// c" ++ [6158]%N)).
-Eval vm_compute in ("<<<M1224>>>" ++ check (runes_of_ascii "// c
-packet x { }")).
-Eval vm_compute in ("<<<M742>>>" ++ check (runes_of_ascii "'j=KG=k_)FDOq")).
+// c" ++ [133]%N)).
+Eval vm_compute in ("<<<M1233>>>" ++ check (runes_of_ascii "packet x { }
+// c
+")).
+Eval vm_compute in ("<<<M1774>>>" ++ check (runes_of_ascii "// trailing space")).
+Eval vm_compute in ("<<<M1763>>>" ++ check (runes_of_ascii "// " ++ [128512]%N ++ runes_of_ascii " emoji
+")).
 Eval vm_compute in ("<<<M1035>>>" ++ check (runes_of_ascii "// c" ++ [12]%N)).
